@@ -247,12 +247,22 @@ class C16(Base):
         mid = rng.choice(ids) if r < 0.85 else ("dup" if r < 0.93 else "zz")
         return mid + rng.choice(["", "", "", "+", "+", "~"])
 
-    def gen_case(self, rng, p_noloc=0.0):
+    def gen_case(self, rng, p_noloc=0.0, big=False):
         nb = rng.choice([0, 1, 2, 2, 3, 3, 3, 4, 4])
         ids = IDS[:rng.choice([1, 2, 2, 3, 5])]
+        bigkeys = 0
+        if big:
+            # a LONG fallback chain (9-40 bundles, the answer often only near the end) or a LARGE batch (9-40 keys)
+            if rng.random() < 0.5:
+                nb = rng.choice([9, 10, 16, 17, 33, 40])
+            else:
+                bigkeys = rng.choice([9, 10, 16, 17, 33, 40])
         segs = ["cfg:" + rng.choice("sssaapq")]
-        for _ in range(nb):
-            segs.append(self.gen_bundle(rng, ids, p_noloc))
+        for j in range(nb):
+            b = self.gen_bundle(rng, ids, p_noloc)
+            if big and nb > 8 and j < nb - 3 and rng.random() < 0.8:
+                b = b[:b.rindex(":") + 1] + "-"      # most of a long chain knows nothing: the walk goes deep
+            segs.append(b)
         for _ in range(rng.randint(1, 8)):
             r = rng.random()
             if r < 0.06:
@@ -262,7 +272,7 @@ class C16(Base):
             if api in ("v", "vs"):
                 segs.append("%s:%s" % (api, self.gen_key(rng, ids)))
             else:
-                n = rng.choice([0, 1, 2, 2, 3, 3, 4, 5])
+                n = bigkeys or rng.choice([0, 1, 2, 2, 3, 3, 4, 5])
                 ks = [self.gen_key(rng, ids) for _ in range(n)]
                 if ks and rng.random() < 0.3:
                     ks.append(rng.choice(ks))           # duplicate key
@@ -273,6 +283,8 @@ class C16(Base):
         n = 5000 if tier == "quick" else 300000
         for i in range(n):
             yield self.gen_case(rng, 0.25 if i % 50 == 0 else 0.0)
+        for i in range(200 if tier == "quick" else 10000):
+            yield self.gen_case(rng, big=True)
         if tier == "thorough":
             ops = ("v:k0;v:k1;vv:k0,k1;vv:k1,k0,k0;mm:k0,k1;vs:k0;vvs:k0,k1;mms:k1,k0;clr;vv:k1")
             locs = ["pl", "en-US", "de"]
